@@ -88,7 +88,7 @@ func runVerifyKeep(w *world.World) (vResult, *verify.Options) {
 	}
 	joined := world.JoinURLs(w.Getter.URLs)
 	obs := fmt.Sprintf("%s urls=%d:%d now=%s", res, len(w.Getter.URLs), hx.Fnv1a([]byte(joined)), nowS)
-	return vResult{obs, res == "ok", res == "panic", append([]string{}, w.Getter.URLs...), err, vSide(w, o)}, o
+	return vResult{obs: obs, accepted: res == "ok", panicked: res == "panic", urls: append([]string{}, w.Getter.URLs...), err: err, side: vSide(w, o)}, o
 }
 
 // showLevelGo prints a level exactly as the model's showLevel does.
